@@ -17,6 +17,10 @@ func main() {
 		os.Exit(2)
 	}
 	prop := os.Args[1]
+	if len(os.Args) >= 5 && os.Args[2] == "--deepchain-child" {
+		n, _ := strconv.Atoi(os.Args[4])
+		deepChainChild(os.Args[3], n) // one multi-million-level nesting chain through every skipper (C03 monitor)
+	}
 	if len(os.Args) >= 3 && os.Args[2] == "--stress-child" {
 		stressChild() // race-detector build of the C14 stress driver (no TLC, no tracing)
 	}
